@@ -874,6 +874,71 @@ fn tour_step(case: &Value) {
     println!("{}", serde_json::to_string(&out).unwrap());
 }
 
+/// Group feature (C05 / C01): routes with grouped jobs, refreshed or not, then the solution-level refresh and the group rule.
+fn group_state(case: &Value) {
+    use vrp_core::construction::features::{create_group_feature, create_minimize_tours_feature, JobGroupDimension};
+    let routes_doc = case["routes"].as_array().unwrap();
+    let vehicles: Vec<Arc<Vehicle>> = (0..routes_doc.len())
+        .map(|i| {
+            let mut dimens = Dimensions::default();
+            dimens.set_vehicle_id(format!("v{i}"));
+            Arc::new(Vehicle {
+                profile: Profile::default(),
+                costs: costs(&Value::Null),
+                dimens,
+                details: vec![VehicleDetail {
+                    start: Some(VehiclePlace { location: 0, time: TimeInterval { earliest: Some(0.), latest: None } }),
+                    end: Some(VehiclePlace { location: 0, time: TimeInterval { earliest: None, latest: Some(1000.) } }),
+                }],
+            })
+        })
+        .collect();
+    let driver = Driver { costs: costs(&Value::Null), dimens: Default::default(), details: vec![] };
+    let fleet = Fleet::new(vec![Arc::new(driver)], vehicles, |_| |_| 0);
+    let mk_single = |group: &Value| {
+        let mut dimens = Dimensions::default();
+        if let Some(g) = group.as_str() {
+            dimens.set_job_group(g.to_string());
+        }
+        Arc::new(Single { places: vec![], dimens })
+    };
+    let total_jobs: usize = routes_doc.iter().map(|r| r["groups"].as_array().unwrap().len()).sum::<usize>() + 1;
+    let goal = GoalContextBuilder::with_features(&[
+        create_group_feature("group", total_jobs, ViolationCode(7)).unwrap(),
+        create_minimize_tours_feature("tours").unwrap(),
+    ])
+    .unwrap()
+    .build()
+    .unwrap();
+    let mut routes = vec![];
+    for (i, r) in routes_doc.iter().enumerate() {
+        let mut rc = RouteContext::new(fleet.actors[i].clone());
+        for g in r["groups"].as_array().unwrap() {
+            rc.route_mut().tour.insert_last(Activity::new_with_job(mk_single(g)));
+        }
+        if !r["stale"].as_bool().unwrap() {
+            // a route that was refreshed on its own and not touched since: not stale
+            goal.accept_route_state(&mut rc);
+        }
+        routes.push(rc);
+    }
+    let job = Job::Single(mk_single(&case["group"]));
+    let registry = Registry::new(&fleet, Arc::new(DefaultRandom::default()));
+    let mut solution_ctx = SolutionContext {
+        required: vec![job.clone()],
+        ignored: vec![],
+        unassigned: Default::default(),
+        locked: Default::default(),
+        routes,
+        registry: RegistryContext::new(&goal, registry),
+        state: Default::default(),
+    };
+    let stale_before: Vec<bool> = solution_ctx.routes.iter().map(|rc| rc.is_stale()).collect();
+    goal.accept_solution_state(&mut solution_ctx);
+    let verdict = goal.evaluate(&MoveContext::route(&solution_ctx, &solution_ctx.routes[0], &job));
+    println!("{}", serde_json::to_string(&json!({"rejected": verdict.is_some(), "stale_before": stale_before})).unwrap());
+}
+
 /// `Statistic + Statistic` through the public operator.
 fn statistic_sum(case: &Value) {
     use vrp_pragmatic::format::solution::{Statistic, Timing};
@@ -926,6 +991,9 @@ fn main() {
     }
     if case["kind"] == "tour" {
         return tour_step(&case);
+    }
+    if case["kind"] == "group_state" {
+        return group_state(&case);
     }
     if case["kind"] == "min_variation" {
         return min_variation(&case);
